@@ -29,6 +29,6 @@ def main(run, replay=None):
         if key not in seen:
             seen.add(key)
             uniq.append(v)
-    res["violations"] = uniq[:40]
+    res["violations"] = uniq[:400]
     res["wall_s"] = round(time.time() - t0, 2)
     print(json.dumps(res, default=repr))
